@@ -38,7 +38,9 @@ BASE_DOCS = [
     {"": {"": {"": "deep"}}, " ": "blank", "a b": 1},
 ]
 INDEXISH = ["0", "1", "2", "3", "10", "11", "12", "-", "-0", "-1", "-2", "00", "01", "+0", "+1", "1.0", "1e0", "0x1",
-            " 1", "1 ", "1_0", "１", "１0", "٣", "²", "9007199254740992", "#0", "#1", "#a", "~a", "~0", "true", "null", ""]
+            " 1", "1 ", "1_0", "１", "１0", "٣", "²", "9007199254740992", "#0", "#1", "#a", "~a", "~0", "true", "null", "",
+            # the index limits themselves (still legal), and index-like tokens followed by a line break
+            "9007199254740991", "-9007199254740991", "9007199254740990", "1\n", "0\n", "-1\n", "1\r", "\n1"]
 
 
 def selftest():
@@ -47,7 +49,8 @@ def selftest():
 
 def names(tier):
     # integers beyond the index limit are not generated as member names (DESIGN 1a/3)
-    return strings_upto(2) + LOOKALIKES + [t for t in INDEXISH if not (t.isascii() and t.isdigit() and len(t) > 15)]
+    return strings_upto(2) + LOOKALIKES + [t for t in INDEXISH if not (t.isascii() and t.isdigit() and len(t) > 15
+                                                                   and t > "9007199254740991")]
 
 
 def muts(tier):
